@@ -3,6 +3,7 @@ package c03
 import (
 	"testing"
 
+	"verifharness/basecheck"
 	"verifharness/pbt"
 	"verifharness/t2jcheck"
 )
@@ -13,3 +14,7 @@ func TestReplay(t *testing.T) { pbt.Replay(t) }
 var Prop = pbt.Register(t2jcheck.Prop("TestThriftToJSON"))
 
 func TestThriftToJSON(t *testing.T) { pbt.Run(t, Prop) }
+
+var Base = pbt.Register(basecheck.RespProp("TestResponseBase"))
+
+func TestResponseBase(t *testing.T) { pbt.Run(t, Base) }
